@@ -259,7 +259,7 @@ func c16(tier string) {
 				}
 				if n <= ctx.N(2, 3) {
 					for _, e := range singleEdits(canon) {
-						if ctx.Quick() && r0.Intn(100) >= 12 {
+						if (ctx.Quick() && r0.Intn(100) >= 12) || (!ctx.Quick() && r0.Intn(100) >= 40) {
 							continue
 						}
 						add(e, "edit", nil, canon)
